@@ -75,6 +75,10 @@ Apply(fn, a) ==
     [] fn = "eq"     -> VBool(a[1] = a[2])
     [] fn = "ne"     -> VBool(a[1] # a[2])
     [] fn = "neg"    -> IF IntLike(a[1]) THEN VInt(0 - a[1].i) ELSE VErr
+    [] fn = "abs"    -> IF IntLike(a[1]) THEN VInt(IF a[1].i < 0 THEN 0 - a[1].i ELSE a[1].i) ELSE VErr
+    \* Python's // and % round towards minus infinity; for a positive divisor that is TLA+'s \div and %
+    [] fn = "floordiv" -> IF IntLike(a[1]) /\ IntLike(a[2]) /\ a[2].i > 0 THEN VInt(a[1].i \div a[2].i) ELSE VErr
+    [] fn = "mod"    -> IF IntLike(a[1]) /\ IntLike(a[2]) /\ a[2].i > 0 THEN VInt(a[1].i % a[2].i) ELSE VErr
     [] fn = "and"    -> IF Truthy(a[1]) THEN a[2] ELSE a[1]
     [] fn = "or"     -> IF Truthy(a[1]) THEN a[1] ELSE a[2]
     [] fn = "not"    -> VBool(~Truthy(a[1]))
